@@ -334,4 +334,22 @@ theorem C07_precedence_deref_field (a b : Str) (ha : isIdentB a = true) (hb : is
   · have := C07_print_parse_partial (.field (.deref (.var a)) b) (by simp [frag, ha, hb])
     simpa [print, printPre, printPost] using this
 
+/-! ## the repository's own canonical text of a literal (`Display for Literal`) -/
+
+/-- Full statement: the text `Literal::to_string()` produces parses back to the literal (as an index of a variable `m`). -/
+def C07_display_parse_full : Prop :=
+  ∀ l, canonLit l = true → parse ('m' :: '[' :: displayLit l ++ [']']) = .ok (.index (.var ['m']) l) []
+
+/-- as found: a structure literal is displayed with quoted keys, `{ "a": 1 }`, which the grammar rejects (keys are bare
+identifiers); replayed on the real code by the harness (`C07 disp {61:i1}`, key literal-display-assoc-array-keys-quoted-not-reparsable) -/
+theorem C07_display_parse_counterexample : ¬ C07_display_parse_full := by
+  intro h
+  have h1 := h (.assoc [(['a'], .int 1)]) (by decide)
+  have h2 : parse ('m' :: '[' :: displayLit (.assoc [(['a'], .int 1)]) ++ [']']) = .fail := by rfl
+  rw [h2] at h1
+  cases h1
+
+/-- the canonical printer of the model (bare keys) does parse back on the same literal (a test by evaluation) -/
+example : parse ('m' :: '[' :: printLit (.assoc [(['a'], .int 1)]) ++ [']']) = .ok (.index (.var ['m']) (.assoc [(['a'], .int 1)])) [] := by rfl
+
 end BsVerif.Dqe
